@@ -84,6 +84,11 @@ CLAIMS = {
   'design_ref': 'DESIGN.md section 4 / C11',
   'note': 'Trusted: abstract asyncio model (asyncio.wait outcomes supplied per case), C10 contracts of connect/disconnect/send. Not decided: that an outcome exists whenever a path can work (environment liveness). Three defects found and fixed (345327d, 85b8972, bf89bd7).',
  },
+ 'C15': {
+  'text': 'Proof. One iteration of the tracking worker (loop contract on the real body) is executed for EVERY combination of previous flags, request flag, operation, queued follow-up, pending retry and server behaviour (confirm exists / not exists / silence / send error / other error) - the flag domain is finite, so this enumeration is exhaustive: AddUser exactly on empty -> non-empty or on a retry while a reason remains, RemoveUser exactly on non-empty -> empty, never otherwise; TRACKED iff the server confirmed the user, else RETRY_PENDING with exactly one retry after 600 s (unknown user) or 10 s (error, silence) and the previous retry cancelled and awaited; no retry survives an empty set; every request is marked handled; the worker returns only with an empty set and an empty queue, and at that very point its registry entry is gone (class invariant registered => worker alive), and a done-callback removes only its own entry. track_user / untrack_user enqueue on the registered worker and create one (with its callback) iff none exists, atomically; CLOSED of the server connection cancels and awaits every worker and retry task; flags are written only through queued requests (frame scan).',
+  'design_ref': 'DESIGN.md section 4 / C15',
+  'note': 'Trusted: abstract asyncio model (Queue, tasks, done-callbacks run in a later iteration). Not decided: wall-clock retry delays. manage_user_tracking (TRANSFER reason) only as a BOUNDED stand-in. One defect found and fixed (8ac5641).',
+ },
 }
 
 NA_DEFAULT = 'check not built yet (work in progress; see DESIGN.md section 4 for the planned contracts)'
